@@ -105,7 +105,7 @@ class FCheck(SCheck):
             if case is None:
                 continue
             gen.canon_case(case)
-            plan = {"seed": r.randrange(1 << 48), "sched": gen.sched_plan(r)}
+            plan = {"seed": r.randrange(1 << 48), "sched": gen.sched_plan(r, ustep=self.ustep_rate)}
             yield {"case": case, "plan": plan, "case_id": i, "per_case": self.PER_CASE[tier], "pairs": self.PAIRS[tier],
                    "pick_seed": r.randrange(1 << 48)}
 
